@@ -26,7 +26,9 @@ ASSUMPTIONS = [
 BASE_US = 1_600_000_000_000_000
 
 WORDS = ["Firefox", "firefox", "FIREFOX", "vim", "Vim", "GitHub", "github.com", "ÄÖÜ", "äöü", "日本語", "a.b", "a+b", "(2) Facebook", "● file.py", "* gedit", "FPS: 59.2", "", " ", "İstanbul", "straße", "STRASSE"]
-REGEXES = ["Firefox", "firefox", "vim|Vim", "^Git", "hub$", "a.b", r"a\+b", "[A-Z]+", r"\d+", "äöü", "日本", "fire", ".", "x^", "(?:)", "i", "ß", "ss", r"\(2\)", ""]
+REGEXES = ["Firefox", "firefox", "vim|Vim", "^Git", "hub$", "a.b", r"a\+b", "[A-Z]+", r"\d+", "äöü", "日本", "fire", ".", "x^", "(?:)", "i", "ß", "ss", r"\(2\)", "",
+           # regexes that could run across the border between two values if those were ever searched as one text
+           r"x\s", r"m\s+", r"[^a-z]G", r"\Wf", r"vim\nFire", r"(?s)m.F", r"^$", r"\A\Z", r"b$"]
 URL_KEYS = ["$protocol", "$domain", "$path", "$params", "$options", "$identifier"]
 
 
